@@ -20,6 +20,19 @@ check("C04",
   "Descendants of an offending block are honest blocks re-parented and re-signed with the creator key the harness owns; pool contents are outside the property's no-trace list and only reported.",
   "DESIGN.md §3 C04")
 
+check("C01",
+  "explicit-state exploration of the implementation: chain positions x adversarial edit catalogue x placements x four gates, judged by a reference ledger",
+  "model_checking",
+  "At four chain positions reached through the real producer (fresh, after a reorganisation, window wrapped with and without a fee level) every edit of a ~45-entry catalogue (forged/zero/wrong-key signature, foreign extra input, non-existent/inflated/spent/replayed/expired/duplicated input, same input in two transactions, Bound retag, outputs exceeding inputs incl. 64-bit wrap, theft and mint under every privileged type, look-up dependent edits under every user-signable type) is offered to the pool, to VerificationThread::verify_tx, and inside attacker-produced blocks as tip extension (two placements) and as completion of a winning side chain; accepted implies authorised per the reference ledger, and every unedited twin / spent-only-on-the-other-fork control must be accepted.",
+  "Reference ledger = set of output coordinates replayed from the harness's block bytes; attacker owns its key and the creator key of its blocks; window-edge inputs (created exactly g blocks earlier) are don't-cares.",
+  "DESIGN.md §3 C01")
+check("C05",
+  "explicit-state exploration of the implementation: two-branch forks x every golden-ticket placement x burn-fee profile x every interleaving, three monitors per delivery",
+  "model_checking",
+  "Stems of 1/3/5 blocks with every golden-ticket placement the node accepts, two branches of length <=2 (quick) / <=3 (thorough) with every golden-ticket subset, normal or light (slow) spacing per branch, every interleaved delivery plus child-before-parent swaps through the consumer path; after every delivery: M1 (a moved tip is strictly longer, at least as heavy over the diverging segment, valid, dense in every six-block window), M2 (height never decreases, an orphan changes neither tip nor index), M3 (a block completing a longer, heavy-enough, valid, dense chain becomes the tip) and the C03 consistency oracle.",
+  "Start-up phase of the density rule: M1 lenient, M3 strict (code's), chains between the readings are don't-cares; blocks are spaced >= 2 heartbeats so no routing work is needed; builders bypass the density rule to be able to produce descendants of violators.",
+  "DESIGN.md §3 C05")
+
 NOT_YET = "check not built yet in this session (work in progress, see DESIGN.md §8 build order); nothing is claimed for it"
 NA = {}
 
